@@ -13,10 +13,16 @@
 
    Dev (as originally coded): StripNewNonce, StripServerNonce, StripNonceHash, StripGAB,
    RsaLeftAligned, PanicOnBadAnswerHash; and SkipCheck - the set of (step, field) checks the
-   client omits (each one alone must let a lie through). *)
+   client omits (each one alone must let a lie through).
+
+   A client object whose exchange was abandoned may be connected again (Again, up to MaxAttempts): by then the
+   application may be talking to a conformant server, and the second attempt is a key exchange like any other.  As coded
+   the object already holds the computed key when dh_gen_ok is still to come (memKey: SetAuthKey before the
+   confirmation); that key was never confirmed and must not make a later attempt skip the exchange
+   (Dev SkipExchangeWhenKeyInMemory: `connected` is decided by "a key is in memory" - seeded change C06_13). *)
 EXTENDS Integers, Sequences, FiniteSets, TLC
 
-CONSTANTS Dev, SkipCheck, LZ
+CONSTANTS Dev, SkipCheck, LZ, MaxAttempts
 
 \* omitted checks used by the sensitivity configurations
 SkipHash == {<<"dhGen", "new_nonce_hash">>}
@@ -34,17 +40,23 @@ Lies == {[step |-> "none", field |-> "none"]}
    \cup {[step |-> "dhInner", field |-> f] : f \in {"nonce", "server_nonce", "kind"}}
    \cup {[step |-> "dhGen", field |-> f] : f \in {"nonce", "server_nonce", "new_nonce_hash", "kind"}}
 
-VARIABLES lz, lie, pc, stored, encSent, cKey, cSalt, sKey, sSalt
-vars == <<lz, lie, pc, stored, encSent, cKey, cSalt, sKey, sSalt>>
+VARIABLES lz, lie, pc, stored, encSent, cKey, cSalt, sKey, sSalt,
+          memKey,    \* the client object holds a computed key (confirmed or not)
+          attempt    \* number of the connection attempt on this client object
+vars == <<lz, lie, pc, stored, encSent, cKey, cSalt, sKey, sSalt, memKey, attempt>>
 
 Init == /\ lz \in [Fields -> LZ] /\ lie \in Lies
         /\ pc = "start" /\ stored = FALSE /\ encSent = FALSE
         /\ cKey = "none" /\ cSalt = "none" /\ sKey = "none" /\ sSalt = "none"
+        /\ memKey = FALSE /\ attempt = 1
 
-Lying(step, field) == lie.step = step /\ lie.field = field
+\* the server lies (once) during the first attempt only
+Lying(step, field) == attempt = 1 /\ lie.step = step /\ lie.field = field
 Checks(step, field) == <<step, field>> \notin SkipCheck
-Abort == pc' = "aborted" /\ UNCHANGED <<lz, lie, stored, encSent, cKey, cSalt, sKey, sSalt>>
-Goto(p) == pc' = p /\ UNCHANGED <<lz, lie, stored, encSent, cKey, cSalt, sKey, sSalt>>
+Abort == pc' = "aborted" /\ UNCHANGED <<lz, lie, stored, encSent, cKey, cSalt, sKey, sSalt, memKey, attempt>>
+Goto(p) == pc' = p /\ UNCHANGED <<lz, lie, stored, encSent, cKey, cSalt, sKey, sSalt, memKey, attempt>>
+\* g^ab computed: as coded the key goes into the client object at once (SetAuthKey), before the server confirmed it
+GotoKeyed(p) == pc' = p /\ memKey' = TRUE /\ UNCHANGED <<lz, lie, stored, encSent, cKey, cSalt, sKey, sSalt, attempt>>
 
 \* req_pq -> resPQ: nonce echoed, fingerprint offered
 RecvResPQ ==
@@ -69,7 +81,7 @@ RecvDHParams ==
              \/ Lying("dhInner", "nonce") /\ Checks("dhInner", "nonce")
              \/ Lying("dhInner", "server_nonce") /\ Checks("dhInner", "server_nonce")
        THEN Abort
-     ELSE Goto("sentClientDH")
+     ELSE GotoKeyed("sentClientDH")
 
 \* what each side derives
 ClientKey  == <<"key", Conv("gab", "StripGAB", lz)>>
@@ -91,20 +103,31 @@ RecvDHGen ==
         \/ ~Lying("dhGen", "new_nonce_hash") /\ ~HashOK
        THEN /\ pc' = "aborted" /\ UNCHANGED <<stored, cKey, cSalt>>
        ELSE /\ pc' = "done" /\ stored' = TRUE /\ cKey' = ClientKey /\ cSalt' = ClientSalt
-  /\ UNCHANGED <<lz, lie, encSent>>
+  /\ UNCHANGED <<lz, lie, encSent, memKey, attempt>>
 
-FirstRequest == pc = "done" /\ ~encSent /\ encSent' = TRUE /\ UNCHANGED <<lz, lie, pc, stored, cKey, cSalt, sKey, sSalt>>
-Stutter == pc \in {"aborted", "panicked"} \/ (pc = "done" /\ encSent)
-Next == RecvResPQ \/ RecvDHParams \/ RecvDHGen \/ FirstRequest \/ (Stutter /\ UNCHANGED vars)
+FirstRequest == pc = "done" /\ ~encSent /\ encSent' = TRUE /\ UNCHANGED <<lz, lie, pc, stored, cKey, cSalt, sKey, sSalt, memKey, attempt>>
+
+\* the application connects the same client object again; the server it reaches now is conformant and knows nothing of
+\* the abandoned exchange (the leading-zero classes of the new values are kept: they are independent of the attempt)
+Again ==
+  /\ pc = "aborted" /\ attempt < MaxAttempts
+  /\ attempt' = attempt + 1 /\ sKey' = "none" /\ sSalt' = "none"
+  /\ pc' = IF "SkipExchangeWhenKeyInMemory" \in Dev /\ memKey THEN "unkeyed" ELSE "start"
+  /\ UNCHANGED <<lz, lie, stored, encSent, cKey, cSalt, memKey>>
+
+Stutter == (pc = "aborted" /\ attempt >= MaxAttempts) \/ pc \in {"panicked", "unkeyed"} \/ (pc = "done" /\ encSent)
+Next == RecvResPQ \/ RecvDHParams \/ RecvDHGen \/ FirstRequest \/ Again \/ (Stutter /\ UNCHANGED vars)
 Spec == Init /\ [][Next]_vars /\ WF_vars(Next)
 
 (* ---- properties ---- *)
-Honest == lie.step = "none"
+Honest == lie.step = "none" \/ attempt > 1
 \* C06: with a conformant server the exchange completes and both sides hold the same key and salt,
 \* whatever the numeric values (leading zero bytes) drawn
 Agreement == pc = "done" /\ Honest => cKey = sKey /\ cSalt = sSalt
 HonestCompletes == <>(Honest => pc = "done" /\ stored)
 NeverPanics == pc # "panicked"
+\* connecting never "succeeds" without an exchange: a client that reports success holds a key the server confirmed
+NeverUnkeyed == pc # "unkeyed"
 \* C07: any lie ends in an abort: nothing stored, no encrypted request
 LieImpliesAbort == ~Honest => pc \notin {"done"} /\ ~stored /\ ~encSent
 LieEventuallyAborts == <>(~Honest => pc = "aborted")
